@@ -1625,6 +1625,25 @@ fn finalize_env(
 }
 
 fn dummy_functions(compiler: &PrimaryCodegen) -> Result<PrimaryCodegen, CompileErr> {
+    // Two functions of one program may not share a name, whatever their
+    // kinds.  Checked here, before any body is compiled: an inline function
+    // and a defun of the same name otherwise send the compilation of the
+    // inline's conditionals into unbounded recursion.
+    let mut seen_function_names: HashSet<Vec<u8>> = HashSet::new();
+    for form in compiler.to_process.iter() {
+        if let HelperForm::Defun(_, defun) = form {
+            if !seen_function_names.insert(defun.name.clone()) {
+                return Err(CompileErr(
+                    defun.loc.clone(),
+                    format!(
+                        "Cannot redefine {}",
+                        SExp::Atom(defun.loc.clone(), defun.name.clone())
+                    ),
+                ));
+            }
+        }
+    }
+
     fold_m(
         &|compiler: &PrimaryCodegen, form: &HelperForm| match form {
             HelperForm::Defun(false, defun) => {
